@@ -569,19 +569,17 @@ class ContainerValue:
         else:
             condition = cnds.NullCondition()
 
-        # for a ContainerValue type:
-        list_condition = spec.pop("list_condition", None)
-        if list_condition is not None:
-            list_condition = cnds.ConditionLike.from_spec(list_condition)
-        else:
-            list_condition = cnds.NullCondition()
+        # for a `MapOrListValue` only (for the other types these are unknown arguments):
+        list_condition = cnds.NullCondition()
+        map_condition = cnds.NullCondition()
+        if cls == MapOrListValue:
+            list_condition_spec = spec.pop("list_condition", None)
+            if list_condition_spec is not None:
+                list_condition = cnds.ConditionLike.from_spec(list_condition_spec)
 
-        # for a ContainerValue type:
-        map_condition = spec.pop("map_condition", None)
-        if map_condition is not None:
-            map_condition = cnds.ConditionLike.from_spec(map_condition)
-        else:
-            map_condition = cnds.NullCondition()
+            map_condition_spec = spec.pop("map_condition", None)
+            if map_condition_spec is not None:
+                map_condition = cnds.ConditionLike.from_spec(map_condition_spec)
 
         value = spec.pop("value", None)
         if value is not None:
